@@ -148,8 +148,8 @@ static void gen_rcfg(struct vp_rng *r, uint64_t round)
 		c->min_alloc = 1UL << vp_rand_n(r, 3);
 		mo = opt_max_order >= 0 ? (int) opt_max_order : 4 + (int) vp_rand_n(r, 5);
 		c->max = 1UL << mo;
-		if (c->mm == 0 && vp_rand_n(r, 6) == 0)
-			c->max = 0;
+		if (c->mm == 0 && !(c->flags & CDS_LFHT_AUTO_RESIZE) && vp_rand_n(r, 4) == 0)
+			c->max = 0;	/* "infinite": never with AUTO_RESIZE (colliding keys would grow the table without bound) */
 		c->hmask = 0x3f;
 		c->pop_hi = 48;
 		break;
@@ -341,6 +341,11 @@ static void table_destroy(void)
 	else if (is_auto)
 		wq_flush();
 	VP_STORE(g_ht, NULL);
+	/* the worker closes its last evaluation record (reads the round configuration) when it goes idle */
+	VP_STORE(t->in_call, CALL_FLUSH);
+	while (__atomic_load_n(&g_worker_active, __ATOMIC_ACQUIRE))
+		usleep(50);
+	VP_STORE(t->in_call, CALL_NONE);
 	if (g_ts) {
 		long leaks = __atomic_load_n(&g_ts->live_allocs, __ATOMIC_RELAXED);
 		if (leaks) {
@@ -518,12 +523,9 @@ static void run_round(struct vp_rng *r)
 	for (int role = 0; role < R_NR; role++)
 		for (int k = 0; k < g_rc.n_role[role] && n < MAXT - 1; k++) {
 			struct thr *t = &T[n];
-			uint64_t nu = t->n_upd, nl = t->n_lookup;
 			struct life *lv = t->lives;
 			uint32_t cl = t->caplives;
 			memset(t, 0, sizeof(*t));
-			t->n_upd = nu;
-			t->n_lookup = nl;
 			t->lives = lv;
 			t->caplives = cl;
 			t->idx = n;
